@@ -9,10 +9,13 @@
    subject.  [wf_schema] is computable and holds of both regenerated dictionaries;
    [keys_unique] is the representation invariant of FIXContainer (an OrderedDict per level).
 
-   Not covered by these theorems (decided differentially by harness/c15.py): the XML parse, in
-   particular independence of the declaration order of <components>. *)
+   The dictionary parse (component resolution with its retry loop, merge, header and message
+   parsing) is modelled in Fix/SchemaParse.v over the raw declarations xml.etree gives; its
+   theorems are at the end of this file (proofs in AF.Lemmas.SchemaParseL).  Outside every model:
+   the XML tokenisation by xml.etree. *)
 From Coq Require Import NArith List Bool.
-From AF Require Import Base.Sx Py.Str Fix.SchemaModel Fix.SchemaSpec Lemmas.SchemaL.
+From Coq Require Import Permutation.
+From AF Require Import Base.Sx Py.Str Fix.SchemaModel Fix.SchemaSpec Fix.SchemaParse Lemmas.SchemaL Lemmas.SchemaParseL.
 From AFGen Require GenSchema.
 Import ListNotations.
 
@@ -187,3 +190,60 @@ Theorem C15_fault_at_depth3_rejected :
   = Exc EFIXMessage.
 Proof. exact ex_fault_at_depth3. Qed.
 Print Assumptions C15_fault_at_depth3_rejected.
+
+(* ---- the outcome does not depend on the order in which components are declared ---- *)
+
+(* tie of the parse model to the real parser on the real inputs: run on the raw declarations of
+   the XML files it returns exactly the dump of the objects FIXSchema built from them *)
+Theorem C15_parse_fix44 : parse GenSchema.FIX44.decls = inr GenSchema.FIX44.schema.
+Proof. exact fix44_parse. Qed.
+Print Assumptions C15_parse_fix44.
+
+Theorem C15_parse_tt : parse GenSchema.TT.decls = inr GenSchema.TT.schema.
+Proof. exact tt_parse. Qed.
+Print Assumptions C15_parse_tt.
+
+(* for every declaration list without duplicate names and every permutation of it: parsing
+   succeeds for one iff for the other, with EQUAL schemas *)
+Theorem C15_component_order_independent : forall r cs',
+  NoDup (map fst (r_comps r)) -> Permutation (r_comps r) cs' ->
+  forall s, parse r = inr s <-> parse_with r cs' = inr s.
+Proof. exact parse_order_iff. Qed.
+Print Assumptions C15_component_order_independent.
+
+(* ... the component tables agree on every name ... *)
+Theorem C15_component_table_order_independent : forall r cs',
+  NoDup (map fst (r_comps r)) -> Permutation (r_comps r) cs' ->
+  forall cm, components_of r (r_comps r) = inr cm ->
+  exists cm', components_of r cs' = inr cm' /\ forall n, lookup cm n = lookup cm' n.
+Proof. exact components_order_independent. Qed.
+Print Assumptions C15_component_table_order_independent.
+
+(* ... hence validate gives the same outcome for every message *)
+Theorem C15_validate_order_independent : forall r cs',
+  NoDup (map fst (r_comps r)) -> Permutation (r_comps r) cs' ->
+  forall s, parse r = inr s ->
+  exists s', parse_with r cs' = inr s' /\ forall vc m, validate vc s' m = validate vc s m.
+Proof. exact validate_order_independent. Qed.
+Print Assumptions C15_validate_order_independent.
+
+(* a dictionary the parser refuses (circular / undeclared reference, duplicate member, ...) is refused in every order *)
+Theorem C15_parse_failure_order_independent : forall r cs',
+  NoDup (map fst (r_comps r)) -> Permutation (r_comps r) cs' ->
+  (exists e, parse r = inl e) <-> (exists e, parse_with r cs' = inl e).
+Proof. exact parse_failure_order_independent. Qed.
+Print Assumptions C15_parse_failure_order_independent.
+
+(* the fuel of the retry loop (number of declarations) is never what stops it *)
+Theorem C15_resolve_fuel_sufficient : forall flds grp fuel cm pending,
+  (length pending <= fuel)%nat ->
+  resolve flds grp fuel cm pending = resolve flds grp (length pending) cm pending.
+Proof. exact resolve_fuel. Qed.
+Print Assumptions C15_resolve_fuel_sufficient.
+
+(* instance: every one of the 104! declaration orders of tests/FIX44.xml parses to the dumped schema *)
+Theorem C15_fix44_any_component_order : forall cs',
+  Permutation (r_comps GenSchema.FIX44.decls) cs' ->
+  parse_with GenSchema.FIX44.decls cs' = inr GenSchema.FIX44.schema.
+Proof. exact fix44_any_order. Qed.
+Print Assumptions C15_fix44_any_component_order.
